@@ -41,6 +41,15 @@ func init() {
 			Profiles: func(c *Ctx) []modelParams {
 				ps := featProfiles(c, 3, 16, 3, "c03", "c13", "c16", "c17-final")
 				ps = append(ps, modelParams{Seed: c.Seed*1000 + 700, Profile: "mixed", Features: []string{"quiet", "overflow-conversion"}, Upto: 0})
+				// history writes fail once (the block is rolled back and applied again): what the history says must
+				// still be what happened - also for the payout rows of snapshot blocks
+				nf := 1
+				if c.Thorough() {
+					nf = 4
+				}
+				for k := 0; k < nf; k++ {
+					ps = append(ps, modelParams{Seed: c.Seed*1000 + 720 + int64(k), Profile: "mixed", Features: []string{"c14", "quiet", "c03", "retries", "history-faults", "c17-final"}, Upto: 144*3 + 20})
+				}
 				return ps
 			},
 			NonTrivial: func(rs []*orch.Result) (int64, map[string]interface{}) {
